@@ -103,6 +103,8 @@ CONFIGS = [
     (["-t", "ext4", "-b", "1024", "-O", "bigalloc,meta_bg,^resize_inode", "-C", "4096", "-g", "8192"], "80M"),
     # sparse_super2 without a resize inode, many groups, files everywhere: a shrink makes another group the last-group backup location
     (["-t", "ext4", "-b", "1024", "-g", "1024", "-O", "sparse_super2,^resize_inode,^has_journal", "-N", "512"], "20M"),
+    # no ext_attr at first: the feature arrives in the primary superblock only (as the kernel sets it on the first setxattr)
+    (["-t", "ext4", "-b", "1024", "-O", "^ext_attr", "-I", "128"], "33M"),
 ]
 
 
@@ -156,13 +158,30 @@ def tool_case(src, mexe, idx, seed, tier):
         menu.append("grow")
         menu.append("shrink")
         menu.append("nudge")
+    menu.append("primary_only")
     plan = [r.choice(menu) for _ in range(r.randint(0, 3))]
     if idx % 3 == 1:
         plan.append("nudge")
+    if "^ext_attr" in " ".join(opts):
+        # nothing after it that rewrites every backup by itself (tune2fs, resize2fs): the repairing e2fsck alone has to do it
+        plan = ["primary_only"] + ([[T("e2fsck/e2fsck"), "-fyD", img]] if (idx // len(CONFIGS)) % 2 else [])
     if wide:
         plan = ["shrink"] + plan[:1]
     for m in plan:
-        if m == "nudge":
+        if m == "primary_only":
+            # a compat feature set in the primary superblock only (debugfs writes the master copy, like the kernel's on-the-fly
+            # flags); the repairing e2fsck that follows has to bring every backup up to date
+            fsn = Fs(img)
+            if fsn.compat & 0x8:
+                step([T("debugfs/debugfs"), "-w", "-R", "feature stable_inodes", img])
+            else:
+                step([T("debugfs/debugfs"), "-w", "-f", "-", img], inp=b"feature ext_attr\nea_set f2 user.k1 value_one\nea_set d user.k2 v2\n")
+            step([T("e2fsck/e2fsck"), "-fy", img])
+            try:
+                tree_start = tree(Fs(img))
+            except FormatError as ex:
+                return {"opts": opts, "steps": steps}, ["independent reader rejects the image after the primary-only feature step: %s" % ex], 0
+        elif m == "nudge":
             # a resize that keeps the number of groups: the backups must still be brought up to date
             fsn = Fs(img)
             last = (fsn.blocks_count - fsn.first_data_block) % fsn.blocks_per_group or fsn.blocks_per_group
@@ -299,7 +318,7 @@ def run(res, replay=None):
     res.cov["evaluations"] += rows
     res.sample({"sweep_config": cfgs[3], "columns": "group has_super super_blk old_desc_blk new_desc_blk used_blks", "first_rows": hout[:4]})
     # ---- B. tools
-    n = 20 if tier == "quick" else 200
+    n = 22 if tier == "quick" else 220
     with concurrent.futures.ThreadPoolExecutor(8) as ex:
         outs = list(ex.map(lambda i: tool_case(src, mexe, i, seed, tier), range(n)))
     bad = []
